@@ -354,16 +354,18 @@ theorem disposeNode_dead_after {fuel : Nat} {r r' : Root} {id : Id}
     simp only [disposeNode] at hx
     split at hx
     · cases hx
-    · rename_i r2 _
-      cases hx
-      cases h : r2.get? id with
-      | none => rw [removeNode_dead h, h]
-      | some this => simp [removeNode_get?_raw h]
+    · split at hx
+      · cases hx
+      · rename_i r2 _
+        cases hx
+        cases h : r2.get? id with
+        | none => rw [removeNode_dead h, h]
+        | some this => simp [removeNode_get?_raw h]
 
 /-- disposing a dead id does nothing and cannot fail -/
 theorem dispose_dead (fuel : Nat) (r : Root) (id : Id) (h : r.get? id = none) :
     disposeNode (fuel + 2) r id = .ok r := by
-  simp [disposeNode, disposeChildren, unsubscribe, h, removeNode]
+  simp [disposeNode, disposeChildren, disposeRest, unsubscribe, h, removeNode]
 
 /-- **disposing twice equals disposing once** — for every arena and arbitrary cleanup closures -/
 theorem dispose_idempotent {fuel fuel' : Nat} {r r' : Root} {id : Id}
